@@ -79,6 +79,21 @@ class Checker(Record):
         return f"<check of {self.t.name}>"
 
 
+class _Unhashable:
+    """a key no dictionary accepts (a tuple holding a list): equal to none of the literal values"""
+
+    __hash__ = None
+
+    def __repr__(self):
+        return "<an unhashable value>"
+
+    def __lt__(self, other):
+        return False
+
+
+UNHASHABLE = _Unhashable()
+
+
 class Val(Record):
     def __init__(self, arg, key, gens, exc):
         self.arg, self.key, self.gens, self.exc = arg, key, gens, exc
@@ -343,7 +358,7 @@ class Generated:
                 if tys[k].dep and tys[k] not in ts:
                     ts.append(tys[k])
             keys = sorted({key for t in ts if t.cls is KEY for key in t.keys})
-            keyvals = keys + ["<other>"] if keys else [None]
+            keyvals = keys + ["<other>", UNHASHABLE] if keys else [None]
             gens = [t.name for t in ts if t.cls in (GEN, GEN2)]
             subsets = [frozenset(c) for r in range(len(gens) + 1) for c in itertools.combinations(gens, r)]
             excs = [None] + [t.name for t in ts if t.cls is EXC]
